@@ -556,6 +556,10 @@ def gl7(prog):
                                     lambda h: h.impl_self == self_adt and "{closure" not in h.npath and
                                     h.name not in ("check_cached_hash_and_neg", "get_or_insert", "get_by_hash", "get_shared_sdd_ptr"))
                  for o in (outs or [])]
+        # a lookup bound to a local closure (`let lookup = |h| ..; lookup(x).or_else(|| lookup(-x))`) is applied
+        ok_h = lambda h: h.impl_self == self_adt and "{closure" not in h.npath and \
+            h.name not in ("check_cached_hash_and_neg", "get_or_insert", "get_by_hash", "get_shared_sdd_ptr")
+        roots = [canon.inline_local(prog, canon.resolve_hashers(te, canon.beta(prog, r)), ok_h) for r in roots]
         for r in roots:
             for x in mir.subterms(r):
                 if x[0] == "call" and x[1].name in ("get_by_hash", "get_shared_sdd_ptr") and x[2] and \
@@ -585,11 +589,11 @@ def gl7(prog):
                         errtext(errs) if errs else "lookups use FxHash(value(h)) and FxHash(value(negate(h))), each from a fresh hasher"))
     # interning side
     for self_adt, names in (("builder::decision_nnf::semantic::SemanticDecisionNNFBuilder", ("get_or_insert",)),
-                            ("builder::sdd::semantic::SemanticSddBuilder", ("hash_bdd", "hash_sdd"))):
+                            ("builder::sdd::semantic::SemanticSddBuilder", ("get_or_insert_bdd", "get_or_insert_sdd"))):
         for nm in names:
             fn = prog.find1(name=nm, self_adt=self_adt, unit="rsdd-lib")
             te = fn.terms
-            if nm == "get_or_insert":
+            if nm.startswith("get_or_insert"):
                 ks = [cs.args[1] for cs in te.calls if cs.callee.name == "get_or_insert_by_hash"]
                 k = ks[0] if ks else None
             else:
@@ -598,7 +602,7 @@ def gl7(prog):
             ok = fed is not None and len(fed) == 1 and mir.is_call(fed[0], "value") and mir.is_call(strip(fed[0][2][0]), "semantic_hash")
             errs = [] if ok else ["%sinterning key is %s, not FxHash(value(semantic_hash(node)))"
                                   % ("?" if fed is None else "", [show(f)[:40] for f in fed] if fed else "unrecognised")]
-            if ok and nm == "get_or_insert":
+            if ok and nm.startswith("get_or_insert"):
                 # ... of the node that is *stored*: a node rebuilt after the hash was taken (children negated, say)
                 # denotes another function than the key says
                 hashed = strip(strip(fed[0][2][0])[2][0])
@@ -608,7 +612,8 @@ def gl7(prog):
                 for st_ in stored:
                     if st_ == hashed:
                         continue
-                    rebuilt = [x for x in mir.subterms(st_) if mir.is_call(x, "new") and "BddNode" in x[1].key()]
+                    rebuilt = [x for x in mir.subterms(st_) if mir.is_call(x, "new") and
+                               any(n_ in x[1].key() for n_ in ("BddNode", "BinarySDD", "SddOr"))]
                     if rebuilt:
                         errs.append("the key is the semantic hash of %s, but the node stored under it is %s: a node rebuilt after the "
                                     "hash was taken denotes a different function than its key, so a later request for the keyed "
